@@ -190,3 +190,20 @@ class AppWorld:
 def restore_time():
 	import time
 	clck_gen.time = time
+
+
+def ctrl_if_time_virtual():
+	""" FAKE_TRXC_DELAY makes ctrl_if sleep before replying: keep that virtual. """
+	import ctrl_if
+	ctrl_if.time = vclock.VTime()
+	return ctrl_if.time
+
+
+_restore_time_orig = restore_time
+
+
+def restore_time():
+	import time
+	import ctrl_if
+	clck_gen.time = time
+	ctrl_if.time = time
